@@ -153,6 +153,14 @@ def stub_line_search(x0, f0, g0, d, lb, ub, above_iter, max_steplength_user, is_
                 CTX.assume(z3.And(al.z() > 0, al.z() <= 1), check=False)
             memo["alphas"].append(al)
     for al in memo["alphas"]:
+        # x0 + a d is a convex combination of x0 and xbar, both in the box: state it, so that the projection the
+        # real code applies to trial points / the iterate is the identity syntactically (exact arithmetic)
+        tp = x0 + al * d
+        for i in range(n):
+            if not lb.data[i].is_special:
+                CTX.assume(_b(tp.data[i] >= lb.data[i]), check=False)
+            if not ub.data[i].is_special:
+                CTX.assume(_b(tp.data[i] <= ub.data[i]), check=False)
         if ST.assume_new_trial:
             # relational harnesses: a trial point is a new point (cuts the wrapper's memo-hit-by-coincidence fork)
             e = _eq_point(list((x0 + al * d).data), list(sf.x.data))
